@@ -83,6 +83,8 @@ type c20 struct {
 	lenMode    int
 	largeBytes int
 	big        bool
+	envelope   *interfaces.ConsensusRawMessage // one raw-message struct refilled with every message ("independent of how the bytes were produced")
+	prevRaw    *interfaces.ConsensusRawMessage // the previous message's raw form (already parsed once)
 }
 
 func (c *c20) bad(rule, d string) {
@@ -165,6 +167,29 @@ func (c *c20) roundTrip(what string, m interfaces.ConsensusMessage, km *varKM, w
 	if !bytes.Equal(back.Raw(), m.Raw()) {
 		c.bad("content-bytes-changed", fmt.Sprintf("%s: content differs after raw round trip", what))
 	}
+	// parsing depends on the bytes only: the same bytes in an envelope that was used (and parsed) for other messages before,
+	// and in a by-value copy of an already parsed raw message whose content is replaced, read back as the same message
+	if c.envelope == nil {
+		c.envelope = &interfaces.ConsensusRawMessage{}
+	}
+	c.envelope.Content, c.envelope.Block = cp, raw.Block
+	viaEnvelope := interfaces.ToConsensusMessage(c.envelope)
+	var viaCopy interfaces.ConsensusMessage
+	if c.prevRaw != nil {
+		cpy := *c.prevRaw
+		cpy.Content, cpy.Block = cp, raw.Block
+		viaCopy = interfaces.ToConsensusMessage(&cpy)
+	}
+	for name, x := range map[string]interface{}{"a refilled envelope": viaEnvelope, "a copied raw message with replaced content": viaCopy} {
+		if name == "a copied raw message with replaced content" && c.prevRaw == nil {
+			continue
+		}
+		xm, _ := x.(interfaces.ConsensusMessage)
+		if xm == nil || xm.MessageType() != back.MessageType() || xm.View() != back.View() || xm.BlockHeight() != back.BlockHeight() || !bytes.Equal(xm.Raw(), back.Raw()) || !bytes.Equal(xm.SenderMemberId(), back.SenderMemberId()) {
+			c.bad("parse-depends-on-the-envelope-history", fmt.Sprintf("%s: the same bytes parsed through %s read back as another message (type %v view %d vs type %v view %d)", what, name, typeOf(xm), viewOf(xm), back.MessageType(), uint64(back.View())))
+		}
+	}
+	c.prevRaw = raw2
 	// the block that travels next to the content: the same on the typed message that was parsed back, and after a second leg
 	typedBlock := func(x interfaces.ConsensusMessage) (interfaces.Block, bool) {
 		switch t := x.(type) {
@@ -615,4 +640,18 @@ func CheckC20(run *harness.Run) int {
 	run.WriteEvidence("exploration", cov, []string{"variable-length recomputable signatures stand in for real ones", "the reference decoder reads with the generated readers (trusted)"}, len(c.findings))
 	fmt.Printf("C20 %s: evaluations=%d distinct classes=%d\n", run.Tier, c.evals, len(c.distinct))
 	return run.Conclude(c.findings, nil)
+}
+
+func typeOf(m interfaces.ConsensusMessage) interface{} {
+	if m == nil {
+		return "nil"
+	}
+	return m.MessageType()
+}
+
+func viewOf(m interfaces.ConsensusMessage) uint64 {
+	if m == nil {
+		return 0
+	}
+	return uint64(m.View())
 }
